@@ -93,8 +93,10 @@ pub fn run(out: &mut Out, tier: &str, rng: &mut Rng) {
             out.count("stream garbage");
         }
         let mut evs = chunks(&stream, &[rng.below(stream.len() as u64 + 1) as usize]);
+        // a signal is published only while the session idles in its select! (before any byte): queued signals
+        // at a frame end or at the death would make both select! branches ready (random order in tokio)
         if rng.chance(1, 4) {
-            evs.insert(rng.below(evs.len() as u64 + 1) as usize, Ev::Signal(rand_signal(rng)));
+            evs.insert(0, Ev::Signal(rand_signal(rng)));
         }
         if rng.chance(1, 10) {
             evs.push(Ev::SignalsClosed);
